@@ -416,6 +416,7 @@ func runC14(c *report.Ctx) {
 			}
 		}
 	}
+	ruleChildPure(c)
 }
 
 // edgeAtoms returns the atom of edge from→to.
